@@ -187,7 +187,15 @@ pub fn run_program_with(program: &Program<Name>, args: &[RData], budget: ExBudge
     match guarded(move || {
         let d: Program<DeBruijn> = p.to_debruijn().map_err(|e| format!("free variable in compiler output: {e}"))?;
         let r = d.eval(budget);
-        Ok::<_, String>(r.result.map_err(|e| h_uplc::common::error_kind(&e)))
+        Ok::<_, String>(r.result.map_err(|e| {
+            let k = h_uplc::common::error_kind(&e);
+            // this machine reports `unIData 42` (a non-Data constant) as a deserialisation
+            // error; for a compiled well-typed program that is a structural failure
+            match &e {
+                uplc::machine::Error::DeserialisationError(_, uplc::machine::value::Value::Con(c)) if !matches!(c.as_ref(), Constant::Data(_)) => format!("{k}:non-data-operand"),
+                _ => k,
+            }
+        }))
     }) {
         Ok(Ok(Ok(t))) => Ran::Value(t),
         Ok(Ok(Err(k))) => Ran::Error(k),
